@@ -735,13 +735,14 @@ func init() {
 			c.ResolvedName("C18")
 			c.LosslessSplit("C18")
 			c.ListRuleApproves("C18")
-			c.IdentitySource("C19") // "permitted" is judged under the name the connection authenticated with
-			c.RulerPositions("C18") // the ruler leaves the request (the path list the lister is iterating over) as it was handed over
+			c.IdentitySource("C19")           // "permitted" is judged under the name the connection authenticated with
+			c.RulerPositions("C18")           // the ruler leaves the request (the path list the lister is iterating over) as it was handed over
 			c.CredentialsRequestScoped("C19") // every decision is taken under the request's own authenticated name
-			c.CheckSemantics("C07") // "permitted" is what the permission checker answers for the account's name
+			c.CheckSemantics("C07")           // "permitted" is what the permission checker answers for the account's name
 			c.RegexWholeName("C07")
-			c.ConfigOrderPreserved("C07") // ... from the operation lists in the order the operator wrote them (first match wins)
-			c.ThresholdRules("C12") // incl. C12.O4: an account created through Dirk reaches the cache the listing reads
+			c.OneInstance("C18", "fetcher") // the lister reads the fetcher instance that run-time creation adds to
+			c.ConfigOrderPreserved("C07")   // ... from the operation lists in the order the operator wrote them (first match wins)
+			c.ThresholdRules("C12")         // incl. C12.O4: an account created through Dirk reaches the cache the listing reads
 		},
 		Explanation: "An account is appended to the listing only below a successful access check of wallet.Name()/account.Name() of that very account, the path filter's match (or no filter) and the rules' approval; the accounts scanned are those of the wallet fetched for the requested path; an iteration skips the append only for {filter mismatch, access refused, no public key, rules not approved}; all requested paths and all accounts are scanned before the result is returned; the account source merges the overlay of dynamically created accounts (full copies of both maps, under the lock) and AddAccount updates both overlay maps; handler entries take name and keys from one account object. See DESIGN.md §5 C18.",
 		Trusted:     append([]string{"regular-expression semantics of the request filter (its anchoring is not grouped; over-inclusive only among permitted accounts)"}, commonTrusted...),
